@@ -53,6 +53,10 @@ def gen_targets(rng, chk):
                     if rng.random() < 0.9:
                         t4[k] = set(v)
             out.append(t4)
+    # a whole machine that is exactly one block (every chip of an origin-anchored 4x4 / 16x16 / 64x64), and nothing else
+    for n in (4, 16, 64):
+        out.append(block(0, 0, n, [1]))
+        out.append(block(0, 0, n, [0, 17]))
     # cores 16 and 17 with neighbours differing in the low select bits
     out.append({(0, 0): {17}, (1, 0): {1}})
     out.append({(0, 0): {16}, (1, 0): {0}, (2, 0): {17, 1}})
